@@ -104,4 +104,27 @@ inline RegData gen_regression(Draw &d, int n, int p, int ny, double decades, int
   return R;
 }
 
+// Orthogonal designs: two-level full factorials (replicated), integer column scales and offsets, integer / exactly linear
+// responses.  After the first latent variables the X'y covariance is EXHAUSTED (exactly, or down to rounding residue) although
+// rank(X) is not reached - a structure continuous draws never produce.
+inline RegData gen_design_regression(Draw &d, int &n, int &p, int ny, int xopt, int yopt) {
+  p = (int)d.i(2, 4); int reps = (int)d.i(1, 2); n = (1 << p) * reps; if (n < 8) n = 8;
+  RegData R; R.X = orc::M(n, p); R.Y = orc::M(n, ny);
+  auto sc = d.ivec(p, 1, 3), off = d.ivec(p, -1, 1);
+  for (int i = 0; i < n; i++) for (int j = 0; j < p; j++) R.X(i, j) = (double)((((i >> j) & 1) ? 1 : -1) * sc[j] + 5 * off[j]);
+  int kind = (int)d.i(0, 3);   // 0 integer noise, 1 linear in one column, 2 linear in two columns, 3 linear + small integer noise
+  auto yi = d.ivec((size_t)n * ny, -5, 5), co = d.ivec((size_t)2 * ny, -3, 3), cst = d.ivec(ny, -4, 4);
+  for (int j = 0; j < ny; j++) { int c1 = j % p, c2 = (j + 1) % p; int a1 = co[2 * j] == 0 ? 2 : (int)co[2 * j], a2 = (int)co[2 * j + 1];
+    for (int i = 0; i < n; i++) {
+      double lin = a1 * (double)R.X(i, c1) + (kind >= 2 ? a2 * (double)R.X(i, c2) : 0.0) + (double)cst[j];
+      R.Y(i, j) = kind == 0 ? (double)yi[(size_t)i * ny + j] : kind == 3 ? lin + (double)yi[(size_t)i * ny + j] / 4 : lin;
+    }
+    bool cstcol = true; for (int i = 1; i < n; i++) if (R.Y(i, j) != R.Y(0, j)) cstcol = false;
+    if (cstcol) for (int i = 0; i < n; i++) R.Y(i, j) += (i % 2) ? 1 : -1;
+  }
+  R.noise = (kind == 0 || kind == 3) ? 1.0 : 0.0;
+  enforce_scale_domain(R.X, xopt, false); enforce_scale_domain(R.Y, yopt, false);   // level scaling needs |mean| >= 0.05: shifts by 1
+  return R;
+}
+
 }  // namespace vf
